@@ -146,6 +146,9 @@ _aug("C10", " + TLC: MC_Interrupt (every placement of up to 2/3 requests of prio
 _aug("C11", " + TLC: MC_OsTraps (the real OS image executed by TLC on the specification's machine for every string / queue / character of a bounded universe)",
      " MC_OsTraps lets TLC execute the built-in OS routines themselves - the OS image exported from the crate, so an edit to os.asm is seen - on the specification's machine from a user-mode TRAP to its return, for every string of up to 2 (thorough: 3) symbols over {x01, x41, xE9, xFF} (PUTS incl. words with high bits, PUTSP packed with odd and even lengths), every keyboard queue of up to two bytes (GETC, IN), every character (OUT), two register fills, three condition codes, real and virtual traps, and checks the contract at the return (1 368 runs of the routines).")
 
+_aug("C33", " + TLC: MC_KbdDisp (the echo program through the real OS image on the specification's machine under every placement of up to 2/3 lock-held steps; safety and termination under weak fairness)",
+     " MC_KbdDisp model-checks, inside the specification, the echo program running through the real OS image while the keyboard or display lock is held during any choice of up to 2 (thorough: 3, two input bytes) instruction steps: every queued byte appears exactly once and in order unless the run went through one of the two transcribed try_write deviations (the known findings), the output is always a prefix of the expected one while no deviation occurred, and under weak fairness every run halts (liveness checked by TLC).")
+
 def main():
     props = [json.loads(l) for l in open(os.path.join(ROOT, "properties.jsonl"))]
     done = sorted(check.CHECKS)
